@@ -297,7 +297,9 @@ class Interp:
             return Rat.const(v)
         if isinstance(v, float):
             return Rat.const(_frac_text(norm(e), v))
-        if v is None or isinstance(v, str):
+        if v is None:
+            return Rat.atom(App('none', []))     # a value like any other (so that it can be loop-carried)
+        if isinstance(v, str):
             return v
         self.incomplete(e, 'constant')
 
